@@ -224,22 +224,27 @@ def evaluate(case):
 # ----------------------------------------------------------------------------- strategy
 @st.composite
 def _case(draw):
-    fr = draw(base.frames(max_rows=24, max_geoms=2))
-    n = fr['n']
-    case = {'frame': fr, 'parts': draw(base.partitionings(n)),
-            'npartitions': draw(st.one_of(st.sampled_from(range(1, 17)), st.sampled_from(range(2, 17)), st.integers(1, 4))),
-            'p': draw(st.one_of(st.sampled_from(range(1, 21)), st.sampled_from(range(2, 21)), st.integers(1, 3))),
-            'compression': draw(st.sampled_from(['snappy', 'gzip', None])),
-            'tempdir': draw(st.sampled_from(['inside', 'inside', 'external-uuid', 'external-plain'])),
-            'overwrite': False, 'previous': None}
+    # configuration first, the (large) frames last: draws made after a large amount of data are less evenly spread
+    cfg = {'npartitions': draw(st.one_of(st.sampled_from(range(1, 17)), st.sampled_from(range(2, 17)), st.sampled_from(range(1, 5)))),
+           'p': draw(st.one_of(st.sampled_from(range(1, 21)), st.sampled_from(range(2, 21)), st.sampled_from(range(1, 4)))),
+           'compression': draw(st.sampled_from(['snappy', 'gzip', None])),
+           'tempdir': draw(st.sampled_from(['inside', 'external-uuid', 'inside', 'external-plain'])),
+           'overwrite': False, 'previous': None}
     r = draw(st.sampled_from(range(6)))
+    prev = None
     if r <= 1:
+        cfg['overwrite'] = True
+        prev = {'npartitions': draw(st.sampled_from(range(1, 13))), 'how': draw(st.sampled_from(['to_parquet', 'pack']))}
+    elif r == 2:
+        cfg['overwrite'] = True                  # overwrite=True with nothing at the path
+    fr = draw(base.frames(max_rows=24, max_geoms=2))
+    case = {'frame': fr, 'parts': draw(base.partitionings(fr['n']))}
+    case.update(cfg)
+    if prev is not None:
         pf = draw(base.frames(max_rows=12, max_geoms=1))
         pf['id'] = [1000 + i for i in pf['id']]
-        case['overwrite'] = True
-        case['previous'] = {'frame': pf, 'npartitions': draw(st.sampled_from(range(1, 13))), 'how': draw(st.sampled_from(['pack', 'to_parquet']))}
-    elif r == 2:
-        case['overwrite'] = True                 # overwrite=True with nothing at the path
+        prev['frame'] = pf
+        case['previous'] = prev
     return case
 
 
